@@ -13,13 +13,13 @@ open P2sh P2sh.Core
 
 /-- more fuel never changes a result -/
 theorem eval_mono : ∀ (fuel : Nat),
-    (∀ (s : CStmt) (g g' : List Val) (f' : Nat), fuel ≤ f' → evalS fuel g s = some g' → evalS f' g s = some g') ∧
-    (∀ (ss : List CStmt) (g g' : List Val) (f' : Nat), fuel ≤ f' → evalP fuel g ss = some g' → evalP f' g ss = some g')
-  | 0 => ⟨fun s g g' f' _ h => by simp [evalS] at h, fun ss g g' f' _ h => by simp [evalP] at h⟩
+    (∀ (s : CStmt) (g : List Val) (r : List Val × Flow) (f' : Nat), fuel ≤ f' → evalS fuel g s = some r → evalS f' g s = some r) ∧
+    (∀ (ss : List CStmt) (g : List Val) (r : List Val × Flow) (f' : Nat), fuel ≤ f' → evalP fuel g ss = some r → evalP f' g ss = some r)
+  | 0 => ⟨fun s g r f' _ h => by simp [evalS] at h, fun ss g r f' _ h => by simp [evalP] at h⟩
   | fuel+1 => by
     have ih := eval_mono fuel
     constructor
-    · intro s g g' f' hle h
+    · intro s g r f' hle h
       cases f' with
       | zero => omega
       | succ m =>
@@ -27,24 +27,52 @@ theorem eval_mono : ∀ (fuel : Nat),
         cases s with
         | letG i e => simpa [evalS] using h
         | expr e => simpa [evalS] using h
-        | block body => simp only [evalS] at h ⊢; exact ih.2 body g g' m hm h
-        | whileS c body =>
+        | breakS l => simpa [evalS] using h
+        | continueS l => simpa [evalS] using h
+        | block body => simp only [evalS] at h ⊢; exact ih.2 body g r m hm h
+        | ifS c thn els =>
           simp only [evalS] at h ⊢
           cases hc : eval g c with
           | none => simp [hc] at h
-          | some r =>
-            obtain ⟨vc, g1⟩ := r
+          | some rc =>
+            obtain ⟨vc, g1⟩ := rc
+            simp only [hc] at h ⊢
+            by_cases hf : vc.isFalsey = true
+            · simp only [hf, if_true] at h ⊢; exact ih.2 els g1 r m hm h
+            · simp only [hf, Bool.false_eq_true, if_false] at h ⊢; exact ih.2 thn g1 r m hm h
+        | loopS lbl body =>
+          simp only [evalS] at h ⊢
+          cases hb : evalP fuel g body with
+          | none => simp [hb] at h
+          | some rb =>
+            obtain ⟨g2, f2⟩ := rb
+            simp only [hb] at h
+            rw [ih.2 body g (g2, f2) m hm hb]
+            cases ha : loopAct lbl f2 with
+            | again => simp only [ha] at h ⊢; exact ih.1 _ g2 r m hm h
+            | exit => simpa [ha] using h
+            | propagate => simpa [ha] using h
+        | whileS lbl c body =>
+          simp only [evalS] at h ⊢
+          cases hc : eval g c with
+          | none => simp [hc] at h
+          | some rc =>
+            obtain ⟨vc, g1⟩ := rc
             simp only [hc] at h ⊢
             by_cases hf : vc.isFalsey = true
             · simpa [hf] using h
             · simp only [hf, Bool.false_eq_true, if_false] at h ⊢
               cases hb : evalP fuel g1 body with
               | none => simp [hb] at h
-              | some g2 =>
+              | some rb =>
+                obtain ⟨g2, f2⟩ := rb
                 simp only [hb] at h
-                rw [ih.2 body g1 g2 m hm hb]
-                exact ih.1 _ g2 g' m hm h
-    · intro ss g g' f' hle h
+                rw [ih.2 body g1 (g2, f2) m hm hb]
+                cases ha : loopAct lbl f2 with
+                | again => simp only [ha] at h ⊢; exact ih.1 _ g2 r m hm h
+                | exit => simpa [ha] using h
+                | propagate => simpa [ha] using h
+    · intro ss g r f' hle h
       cases f' with
       | zero => omega
       | succ m =>
@@ -55,60 +83,68 @@ theorem eval_mono : ∀ (fuel : Nat),
           simp only [evalP] at h ⊢
           cases hs : evalS fuel g s with
           | none => simp [hs] at h
-          | some g1 =>
-            simp only [hs] at h
-            rw [ih.1 s g g1 m hm hs]
-            exact ih.2 rest g1 g' m hm h
+          | some rs =>
+            obtain ⟨g1, f1⟩ := rs
+            rw [ih.1 s g (g1, f1) m hm hs]
+            cases f1 with
+            | normal => simp only [hs] at h ⊢; exact ih.2 rest g1 r m hm h
+            | brk l => simpa [hs] using h
+            | cont l => simpa [hs] using h
 
-/-- evaluating `ss₁` and then `ss₂` is evaluating `ss₁ ++ ss₂` -/
-theorem evalP_append : ∀ (ss1 ss2 : List CStmt) (f1 f2 : Nat) (g g1 g2 : List Val),
-    evalP f1 g ss1 = some g1 → evalP f2 g1 ss2 = some g2 → ∃ f, evalP f g (ss1 ++ ss2) = some g2 := by
+/-- evaluating `ss₁` (to its normal end) and then `ss₂` is evaluating `ss₁ ++ ss₂` -/
+theorem evalP_append : ∀ (ss1 ss2 : List CStmt) (f1 f2 : Nat) (g g1 : List Val) (r : List Val × Flow),
+    evalP f1 g ss1 = some (g1, .normal) → evalP f2 g1 ss2 = some r → ∃ f, evalP f g (ss1 ++ ss2) = some r := by
   intro ss1
   induction ss1 with
   | nil =>
-    intro ss2 f1 f2 g g1 g2 h1 h2
+    intro ss2 f1 f2 g g1 r h1 h2
     cases f1 with
     | zero => simp [evalP] at h1
     | succ n =>
-      simp only [evalP, Option.some.injEq] at h1
-      subst h1
+      simp only [evalP, Option.some.injEq, Prod.mk.injEq] at h1
+      obtain ⟨rfl, _⟩ := h1
       exact ⟨f2, by simpa using h2⟩
   | cons s rest ih =>
-    intro ss2 f1 f2 g g1 g2 h1 h2
+    intro ss2 f1 f2 g g1 r h1 h2
     cases f1 with
     | zero => simp [evalP] at h1
     | succ n =>
       simp only [evalP] at h1
       cases hs : evalS n g s with
       | none => simp [hs] at h1
-      | some gm =>
-        simp only [hs] at h1
-        obtain ⟨f, hf⟩ := ih ss2 n f2 gm g1 g2 h1 h2
-        refine ⟨max n f + 1, ?_⟩
-        simp only [List.cons_append, evalP]
-        rw [(eval_mono n).1 s g gm (max n f) (Nat.le_max_left _ _) hs]
-        exact (eval_mono f).2 _ gm g2 (max n f) (Nat.le_max_right _ _) hf
+      | some rs =>
+        obtain ⟨gm, fm⟩ := rs
+        cases fm with
+        | normal =>
+          simp only [hs] at h1
+          obtain ⟨f, hf⟩ := ih ss2 n f2 gm g1 r h1 h2
+          refine ⟨max n f + 1, ?_⟩
+          simp only [List.cons_append, evalP]
+          rw [(eval_mono n).1 s g (gm, .normal) (max n f) (Nat.le_max_left _ _) hs]
+          exact (eval_mono f).2 _ gm r (max n f) (Nat.le_max_right _ _) hf
+        | brk l => simp [hs] at h1
+        | cont l => simp [hs] at h1
 
 /-- **accepted lines compose** (core fragment): line 1 compiled at byte 0 with an empty pool,
 line 2 compiled at byte 0 *in the carried state* (its constants appended to the pool, the
 globals line 1 left) — the second run ends with the globals of the one program
 `line1 ++ line2`, and with an empty stack -/
 theorem accepted_lines_compose (ss1 ss2 : List CStmt) (f1 f2 : Nat) (g g1 g2 : List Val)
-    (h1 : evalP f1 g ss1 = some g1) (h2 : evalP f2 g1 ss2 = some g2) :
-    Steps (compileP 0 0 ss1) (constsP ss1 ++ constsP ss2) ⟨0, [], g⟩ ⟨bytes (compileP 0 0 ss1), [], g1⟩ ∧
-    Steps (compileP 0 (constsP ss1).length ss2) (constsP ss1 ++ constsP ss2) ⟨0, [], g1⟩
-      ⟨bytes (compileP 0 (constsP ss1).length ss2), [], g2⟩ ∧
-    ∃ f, evalP f g (ss1 ++ ss2) = some g2 := by
-  refine ⟨?_, ?_, evalP_append ss1 ss2 f1 f2 g g1 g2 h1 h2⟩
-  · have := compileP_correct f1 ss1 (compileP 0 0 ss1) (constsP ss1 ++ constsP ss2) 0 0 [] g g1
+    (h1 : evalP f1 g ss1 = some (g1, .normal)) (h2 : evalP f2 g1 ss2 = some (g2, .normal)) :
+    Steps (compileP 0 0 [] ss1) (constsP ss1 ++ constsP ss2) ⟨0, [], g⟩ ⟨bytes (compileP 0 0 [] ss1), [], g1⟩ ∧
+    Steps (compileP 0 (constsP ss1).length [] ss2) (constsP ss1 ++ constsP ss2) ⟨0, [], g1⟩
+      ⟨bytes (compileP 0 (constsP ss1).length [] ss2), [], g2⟩ ∧
+    ∃ f, evalP f g (ss1 ++ ss2) = some (g2, .normal) := by
+  refine ⟨?_, ?_, evalP_append ss1 ss2 f1 f2 g g1 _ h1 h2⟩
+  · have := compileP_correct f1 ss1 (compileP 0 0 [] ss1) (constsP ss1 ++ constsP ss2) 0 0 [] [] g g1 .normal
       ⟨[], [], by simp, rfl⟩ ⟨[], constsP ss2, by simp, rfl⟩ h1
-    simpa using this
-  · have := compileP_correct f2 ss2 (compileP 0 (constsP ss1).length ss2) (constsP ss1 ++ constsP ss2) 0 (constsP ss1).length [] g1 g2
+    simpa [exitPc] using this
+  · have := compileP_correct f2 ss2 (compileP 0 (constsP ss1).length [] ss2) (constsP ss1 ++ constsP ss2) 0 (constsP ss1).length [] [] g1 g2 .normal
       ⟨[], [], by simp, rfl⟩ ⟨constsP ss1, [], by simp, rfl⟩ h2
-    simpa using this
+    simpa [exitPc] using this
 
 /-- non-vacuity: `let x = 2;` then `x = x * 21;` -/
-example : evalP 5 [.null] [.letG 0 (.lit (.int 2))] = some [.int 2] ∧
-    evalP 5 [.int 2] [.expr (.gset 0 (.bin .mul (.gget 0) (.lit (.int 21))))] = some [.int 42] := ⟨rfl, rfl⟩
+example : evalP 5 [.null] [.letG 0 (.lit (.int 2))] = some ([.int 2], .normal) ∧
+    evalP 5 [.int 2] [.expr (.gset 0 (.bin .mul (.gget 0) (.lit (.int 21))))] = some ([.int 42], .normal) := ⟨rfl, rfl⟩
 
 end P2sh.Props.C23
